@@ -173,7 +173,7 @@ def compare_lex(res, st, tag, cases, impl, model, sample_every, findings, pendin
                 if 13 in raw and spec.startswith("+"):
                     # a line break inside a lexeme reads as LF (Agree.norm_eol)
                     spec = "+" + ",".join(x.replace(b"\r\n", b"\n").replace(b"\r", b"\n").hex() for x in unhex_list(spec[1:]))
-                if mlc == "1" and "B" not in mknown and "D" not in mknown:
+                if mlc == "1" and "D" not in mknown:
                     st.spec_checked += 1
                     if spec != "+" + mllh:
                         pending["n_spec"] += 1
@@ -181,7 +181,7 @@ def compare_lex(res, st, tag, cases, impl, model, sample_every, findings, pendin
                             pending["spec"].append((
                                 "split_spec differs from the vhdl_lang model on a clean input (statement C18_lang_is_spec)",
                                 dict(base, kind="theorem", theorem="C18_lang_is_spec", spec=spec)))
-                if msc == "1" and "A" not in mknown:
+                if msc == "1":
                     st.spec_checked += 1
                     if spec != "+" + mslh:
                         pending["n_spec"] += 1
@@ -456,16 +456,18 @@ def main(tier, replay=None):
     res.coverage["explanation"] = (
         "THEOREM half (Props/C18.v, all closed under the global context): the property's first clause — for every "
         "Latin-1 input that is lexically clean for both lexer models, holds no grave accent and no `vhdl_ls`, and lies "
-        "outside the three differences of today's code, the two models split it into the same lexeme sequence — is proved "
+        "outside the one remaining difference of today's code (CR LF between two ticks, F43), the two models split it into the same lexeme sequence — is proved "
         "for ALL inputs (C18_lexemes_agree), through the reference longest-match splitter split_spec (LRM 15 lexeme "
         "grammar, independent of both models) that each model realises when clean (C18_lang_is_spec[_eol] over the reader "
         "model of vhdl_lang, C18_syn_is_spec[_eol] over the tokenizer + merge model of vhdl_syntax, arm by arm; "
         "C18_lexemes_are_spec; C18_split_spec_normalisation for CR / CR LF line breaks); an independent vm_compute "
         "evaluation of both models on ALL byte strings up to length 3 (thorough: 4) over a 24-symbol alphabet "
-        "(C18_lexemes_agree_bounded); the refutations: the literal property is false on today's code in exactly three ways "
-        "(C18_*_refuted: ':' based literals, PSL reserved words before a tick, CR LF between ticks — all reproduced on "
-        "the real lexers and reported as KNOWN-FINDING); the repaired defects: the pre-5ee4d03 tokenizer on `1:= ` "
-        "(C18_clean_mismatch_old_refuted) and the pre-f2c0e80 merge on `1.5x\"0\"` (C18_merge_any_literal_old_refuted).  The models are tied to the code on every run: both real lexers against both "
+        "(C18_lexemes_agree_bounded); the refutation: the literal property is still false on today's code in one way "
+        "(C18_crlf_character_refuted, reproduced on the real lexers and reported as KNOWN-FINDING F43); the repaired "
+        "defects as regression lemmas: the pre-5ee4d03 tokenizer on `1:= ` (C18_clean_mismatch_old_refuted), the "
+        "pre-f2c0e80 merge on `1.5x\"0\"` (C18_merge_any_literal_old_refuted), the pre-9360ea7 keyword table on "
+        "`assume_guarantee'a'` (C18_psl_reserved_word_old_refuted) and agreement on `16:FF:` since bba3236 "
+        "(C18_colon_based_literal_agree).  The models are tied to the code on every run: both real lexers against both "
         "extracted models on all generated inputs (lexemes and cleanliness), and split_spec against both; the "
         "implementation-level oracle is the differential of the two REAL lexers.  EXPLORATION half (second clause): "
         "acceptance by both real parsers + SyntaxNode::validate() on the bundled libraries and on generated valid programs "
@@ -479,7 +481,8 @@ def main(tier, replay=None):
         "vhdl_syntax's merged stream carries a LexErr",
         "sources holding a grave accent (tool directive) or the text `vhdl_ls` (pragma comments) are outside the quantifier",
         "lexemes are compared as texts, letter case preserved; a line break inside a lexeme counts as LF",
-        "the open lexing differences (KNOWN-FINDING F40, F42, F43; F41 is fixed by f2c0e80) are matched by the "
-        "first differing lexeme pair of an input; the open acceptance findings F44-F49 by the exact text of their corpus unit",
+        "the open lexing difference F43 is matched by the first differing lexeme pair of an input (F40, F41, F42 are fixed: a "
+        "mismatch of their shape is a VIOLATION); the open acceptance findings F45, F47 by the exact text of their corpus "
+        "unit (F44, F46, F48, F49 are fixed: their units must be accepted)",
     ]
     return res.finish()
